@@ -187,15 +187,15 @@ func runC10(c *Ctx) {
 		"syscall.Rename": true, "syscall.Unlink": true, "io.Copy": true, "io.WriteString": true, "fmt.Fprintf": true, "fmt.Fprint": true, "fmt.Fprintln": true,
 	}
 	allowed := map[string]string{
-		"(*Spec).write|os.MkdirAll":           "creates the Spec directory",
-		"(*Spec).write|os.CreateTemp":         "the temporary file",
-		"(*Spec).write|(*os.File).Write":      "writes the temporary file",
-		"(*Spec).write|(*os.File).Close":      "closes the temporary file",
-		"(*Spec).write|os.Remove":             "removes the temporary file after a failed rename",
-		"(*Cache).RemoveSpec|os.Remove":       "RemoveSpec's single target",
+		"(*Spec).write|os.MkdirAll":                "creates the Spec directory",
+		"(*Spec).write|os.CreateTemp":              "the temporary file",
+		"(*Spec).write|(*os.File).Write":           "writes the temporary file",
+		"(*Spec).write|(*os.File).Close":           "closes the temporary file",
+		"(*Spec).write|os.Remove":                  "removes the temporary file after a failed rename",
+		"(*Cache).RemoveSpec|os.Remove":            "RemoveSpec's single target",
 		"renameIn|golang.org/x/sys/unix.Renameat2": "the atomic rename (linux)",
-		"renameIn|os.Rename":                  "the rename (non-linux)",
-		"renameIn$1|(*os.File).Close":         "closes the directory handle (read-only open)",
+		"renameIn|os.Rename":                       "the rename (non-linux)",
+		"renameIn$1|(*os.File).Close":              "closes the directory handle (read-only open)",
 	}
 	readOnly := map[string]bool{
 		"os.Open": true, "os.ReadFile": true, "os.Stat": true, "os.Lstat": true, "os.IsNotExist": true, "os.IsExist": true, "os.ReadDir": true,
